@@ -2,7 +2,7 @@
    (valid_pixels through the block table, the cached count) describe exactly the set
    { p | valid (read m p) } of the dense abstraction. *)
 From Coq Require Import Sorting.Permutation.
-From HS Require Import Prelude Cov Map Spec Params AtFold MapProofs UpdateProofs LayoutProofs.
+From HS Require Import Prelude Cov Map Spec Params AtFold MapProofs UpdateProofs HistoryProofs LayoutProofs.
 
 Lemma opt_map_map {A B} (f : A -> option B) (g : A -> B) l :
   (forall x, In x l -> f x = Some (g x)) -> opt_map f l = Some (map g l).
@@ -31,8 +31,8 @@ Proof.
     cbn [length zrange_nat filter]. rewrite zcount_cons, Z.sub_diag. cbn [znth]. rewrite Z.eqb_refl.
     rewrite (IH (lo + 1)).
     assert (E : filter (fun i => f (znth d t (i - (lo + 1)))) (zrange_nat (lo + 1) (length t)) =
-                filter (fun i => f (znth d (x :: t) (i - lo))) (zrange_nat (lo + 1) (length t))).
-    { apply filter_ext_in. intros i Hi. apply In_zrange_nat in Hi. rewrite znth_cons.
+                filter (fun i => f (if i - lo =? 0 then x else znth d t (i - lo - 1))) (zrange_nat (lo + 1) (length t))).
+    { apply filter_ext_in. intros i Hi. apply In_zrange_nat in Hi.
       destruct (i - lo =? 0) eqn:E0; [lia|]. replace (i - lo - 1) with (i - (lo + 1)) by lia. reflexivity. }
     rewrite E. destruct (f x); [rewrite zlen_cons; lia|lia]. }
   rewrite (G 0 l). f_equal. apply filter_ext. intros i. rewrite Z.sub_0_r. reflexivity.
@@ -170,6 +170,75 @@ Lemma update_cache_ok m o pvs na :
 Proof.
   left. rewrite (update_unfold P). cbv zeta.
   destruct (outcov P m pvs) as [|x r]; [reflexivity|]. destruct na; reflexivity.
+Qed.
+
+(* n_valid only touches the memo *)
+Lemma n_valid_frame m :
+  nfine (fst (n_valid V valid m)) = nfine m /\ idx (fst (n_valid V valid m)) = idx m /\
+  sp (fst (n_valid V valid m)) = sp m /\ blank (fst (n_valid V valid m)) = blank m.
+Proof. unfold Map.n_valid. destruct (cache m); cbn; repeat split; reflexivity. Qed.
+
+Lemma n_valid_wf m : wf m -> wf (fst (n_valid V valid m)).
+Proof.
+  intros W. destruct (n_valid_frame m) as [E1 [E2 [E3 E4]]].
+  destruct W as [W1 W2 W3 W4 W5 W6].
+  constructor; unfold Map.ncovered, Map.covered, Map.off, Map.ncov in *; rewrite ?E1, ?E2, ?E3, ?E4; assumption.
+Qed.
+
+Lemma n_valid_abs m : abs (fst (n_valid V valid m)) = abs m.
+Proof.
+  destruct (n_valid_frame m) as [E1 [E2 [E3 E4]]].
+  unfold Spec.abs, Map.npix, Map.ncov, Map.read, Map.cell. rewrite E1, E2, E3, E4. reflexivity.
+Qed.
+
+(* ---- histories interleaving updates and count queries ---- *)
+Inductive aop := AUpd (h : hop P) | AQuery.
+
+Definition astep (m : smap) (a : aop) : smap :=
+  match a with
+  | AUpd h => hstep P m h
+  | AQuery => fst (n_valid V valid m)
+  end.
+
+Definition aop_ok (np : Z) (a : aop) : Prop :=
+  match a with AUpd h => forall pv, In pv (h_pvs P h) -> 0 <= fst pv < np | AQuery => True end.
+
+Definition dastep (d : dmap V) (a : aop) : dmap V :=
+  match a with AUpd h => dstep P d h | AQuery => d end.
+
+(* whatever was asked before, after any interleaving of updates and queries the memo is either
+   empty or equal to the true count, the state is well formed and still denotes the dense array
+   given the same updates: so the NEXT count query answers the dense array's count *)
+Theorem cache_history ops : forall m,
+  wf m -> cache_ok m -> (forall a, In a ops -> aop_ok (npix m) a) ->
+  let m' := fold_left astep ops m in
+  wf m' /\ cache_ok m' /\ npix m' = npix m /\
+  abs m' = fold_left dastep ops (abs m) /\
+  snd (n_valid V valid m') = d_n_valid V valid (abs m').
+Proof.
+  induction ops as [|a r IH]; intros m W C H; cbn [fold_left].
+  - cbv zeta. split; [exact W|]. split; [exact C|]. split; [reflexivity|]. split; [reflexivity|].
+    rewrite (proj1 (n_valid_sound m C)). apply count_valid_spec. exact W.
+  - assert (Ha : aop_ok (npix m) a) by (apply H; left; reflexivity).
+    destruct a as [h|]; cbn [astep dastep].
+    + assert (Hok : pvs_ok P m (h_pvs P h)) by exact Ha.
+      pose proof (update_wf P m (h_o P h) (h_pvs P h) (h_na P h) W Hok) as W1.
+      pose proof (npix_update P m (h_o P h) (h_pvs P h) (h_na P h)) as N1.
+      destruct (IH (hstep P m h)) as [W2 [C2 [N2 [A2 Q2]]]].
+      * exact W1.
+      * apply update_cache_ok.
+      * unfold hstep. rewrite N1. intros a Hin. apply H. right; exact Hin.
+      * cbv zeta. split; [exact W2|]. split; [exact C2|]. split; [rewrite N2; exact N1|]. split; [|exact Q2].
+        rewrite A2. unfold hstep, dstep. rewrite (update_refines P) by assumption. reflexivity.
+    + destruct (IH (fst (n_valid V valid m))) as [W2 [C2 [N2 [A2 Q2]]]].
+      * apply n_valid_wf. exact W.
+      * apply n_valid_sound. exact C.
+      * assert (E : npix (fst (n_valid V valid m)) = npix m).
+        { destruct (n_valid_frame m) as [E1 [E2 _]]. unfold Map.npix, Map.ncov. rewrite E1, E2. reflexivity. }
+        rewrite E. intros a Hin. apply H. right; exact Hin.
+      * cbv zeta. split; [exact W2|]. split; [exact C2|]. split; [|split; [|exact Q2]].
+        -- rewrite N2. destruct (n_valid_frame m) as [E1 [E2 _]]. unfold Map.npix, Map.ncov. rewrite E1, E2. reflexivity.
+        -- rewrite A2, n_valid_abs. reflexivity.
 Qed.
 
 End Account.
